@@ -28,3 +28,9 @@ claim('C14', 'Coq theorems for every inner construct + correspondence + exhausti
       'rawcopy_parse (value/offsets/length/data as re-read), rawcopy_final_position, checksum_detects/accepts/build for every inner '
       'construct. The oracle checks data == stream slice at non-zero offsets and inside substreams, build from value == build from '
       'data, build-then-parse of Checksum structs incl. stale digests, and every single-bit corruption of region and digest.', 'DESIGN.md 6/C14')
+claim('C11', 'Coq finite-table theorems over the table regenerated from expr.py + extracted-model correspondence + exhaustive-skeleton oracle',
+      'gen/ExprTable.v is regenerated from construct/expr.py by a fail-closed ast translator on every run; the kernel checks that it equals '
+      '(as a set) the operator table of Python\'s data model and that every operator prints as its own symbol, so a swapped or crossed '
+      'overload breaks a proof obligation. Evaluation lemmas are stated on the model and the model is compared with the library on REval '
+      'requests. repr/str faithfulness is decided by evaluating eval(repr(e)) with the real Python parser over every operator x unary x '
+      'side x constant-type skeleton (the printing theorem itself is listed as partial).', 'DESIGN.md 6/C11')
